@@ -12,7 +12,8 @@ from pathlib import Path
 from harness.common import PY, REPO, VERIF
 from harness.props import c11_pool
 
-HARD_WALL_LIMIT = 150.0     # CPU seconds one case may take before the worker is killed (hang) ...
+HARD_WALL_LIMIT = 100.0     # CPU seconds one case may take before the worker is killed (hang) ...
+MAX_HANGS = 4               # after this many hangs the remaining cases are skipped (the run is a VIOLATION already)
 ABS_WALL_LIMIT = 1500.0     # ... or this many wall-clock seconds (a process that sleeps / blocks forever uses no CPU)
 
 
@@ -122,6 +123,14 @@ def run_stream(cases: list[dict], base: Path, nworkers: int = 8) -> tuple[dict[s
     while alive:
         time.sleep(0.15)
         alive = [w for w in alive if w.poll()]
+        if sum(1 for w in workers for r in w.done.values() if r.get("hang")) >= MAX_HANGS:
+            for w in alive:
+                if w.proc.poll() is None:
+                    w.proc.kill()
+                    w.proc.wait()
+                for c in w.todo:
+                    w.done.setdefault(c["id"], {"id": c["id"], "skipped": True, "crash": None, "failures": [], "cpu": None})
+            alive = []
     results, baselines = {}, {}
     for w in workers:
         for k, v in w.done.items():
